@@ -478,10 +478,16 @@ def rule_aliases(ctx, rule='R09.a'):
     prog = ctx.prog
     init = prog.module('pyPRISM.closure')
     n = 0
-    for dcls, f, users in defining_classes(prog):
-        for c in users:
-            if c is dcls:
-                continue
+    # an alias is a closure class whose direct base is itself an evaluable closure (PY(PercusYevick), ...);
+    # found by the class hierarchy, so an alias that grows its own `calculate` is still recognised as one
+    concrete = atomic_closure_classes(prog)
+    pairs = []
+    for c in concrete:
+        bases = [b for b in c.mro()[1:2] if b in concrete]
+        if bases:
+            pairs.append((bases[0], c))
+    for dcls, c in pairs:
+        if True:
             n += 1
             members = sorted(list(c.methods) + list(c.getters) + list(c.setters) + list(c.class_attrs))
             if members:
